@@ -319,13 +319,14 @@ def inherent(ex, ci, sb, meth, args, fn, dest_ty):
         if meth in ('as_str', 'as_mut_str', 'to_string', 'to_owned', 'into_boxed_str', 'into_string', 'clone', 'borrow', 'as_ref'): return s
         if meth == 'len': return usize(ex.str_bytelen(s))
         if meth == 'is_empty': return len(s.chars) == 0
+        if meth == 'is_ascii': return z_and(*[char_pred(ex, c_, lambda v: v < 0x80, [(0, 0x7f)]) for c_ in s.chars])
         if meth == 'chars': return Iter('chars', s=s, i=0)
         if meth == 'char_indices': return Iter('char_indices', s=s, i=0, off=0)
         if meth == 'bytes': return it_cells(str_bytes_vec(ex, s).items, False)
         if meth == 'as_bytes' or meth == 'into_bytes':
             v = str_bytes_vec(ex, s); return SliceRef(v.items, 0, len(v.items)) if meth == 'as_bytes' else v
         if meth == 'is_char_boundary': raise Unsupported('is_char_boundary')
-        if meth in ('starts_with', 'ends_with', 'strip_prefix', 'strip_suffix', 'contains', 'find', 'split', 'split_once', 'rsplit_once', 'splitn', 'trim_start_matches', 'trim_end_matches', 'rfind', 'split_terminator'):
+        if meth in ('starts_with', 'ends_with', 'strip_prefix', 'strip_suffix', 'contains', 'find', 'split', 'split_once', 'rsplit_once', 'splitn', 'rfind', 'split_terminator'):
             p = args[1]; pd = ex.deref(p)
             if isinstance(pd, (Closure, FnItem)):
                 if meth in ('contains',):
@@ -383,6 +384,15 @@ def inherent(ex, ci, sb, meth, args, fn, dest_ty):
                 else: cur.append(c)
             if cur: parts.append(Str(cur))
             return Iter('pylist', vals=parts, i=0)
+        if meth in ('trim_end_matches', 'trim_start_matches', 'trim_matches'):
+            pat = pat_to_str(ex, args[1])
+            if pat is None or len(pat.chars) != 1: raise Unsupported('str::' + meth + ' with a non-char pattern')
+            ch = list(s.chars); pc = pat.chars[0]
+            if meth != 'trim_end_matches':
+                while ch and ex.branch(seq(ex, ch[0], pc)): ch.pop(0)
+            if meth != 'trim_start_matches':
+                while ch and ex.branch(seq(ex, ch[-1], pc)): ch.pop()
+            return Str(ch)
         if meth in ('trim', 'trim_start', 'trim_end'):
             ch = list(s.chars)
             if meth != 'trim_end':
